@@ -6,7 +6,8 @@
 (*   lit(seed, id, len, node) / not(x, id, len, node)                      *)
 (*   and(items, id, len, node) / or(items, id, len, node)                  *)
 (* (id = handle returned, len = LineageStore::len() afterwards, node =     *)
-(* LineageStore::node(id)).  The operators of LineageStore.tla are applied *)
+(* LineageStore::node(id), plus meta = LineageStore::metadata(id)).      *)
+(* The operators of LineageStore.tla are applied                          *)
 (* to the recorded arguments; handle, size and node must be the ones they  *)
 (* yield, the store must stay Canonical, and the handle must denote the    *)
 (* negation / conjunction / disjunction of the operands (truth tables over *)
@@ -19,6 +20,9 @@ VARIABLES l, run, bad
 tvars == <<l, run, bad, store, last>>
 Ev == Rec[l]
 
+ExclusiveSeeds == {3}          \* the driver registers seed 3 in an exclusive group
+B2(b) == IF b THEN "t" ELSE "f"
+MetaObs(m) == [neg |-> B2(m.neg), excl |-> B2(m.excl), cyc |-> B2(m.cyc), mono |-> B2(m.mono)]
 Apply(e, st) ==
   CASE e.ev = "lit" -> Literal(st, e.seed)
     [] e.ev = "not" -> Not(st, e.x)
@@ -36,6 +40,7 @@ Why(e, st) ==
   ELSE IF e.node # NodeOf(o.st, o.id) THEN "node-differs"
   ELSE IF ~Canonical(o.st) THEN "not-canonical"
   ELSE IF ~Exact(e, o.st, o.id) THEN "handle-denotes-another-function"
+  ELSE IF e.meta # MetaObs(Meta(o.st, o.id, ExclusiveSeeds)) THEN "metadata-differs"
   ELSE ""
 
 TInit == l = 1 /\ run = 0 /\ bad = FALSE /\ store = EmptyStore /\ last = [op |-> "init", args |-> <<>>, id |-> 0]
